@@ -642,6 +642,42 @@ class PteraTransformer(NodeTransformer):
             node,
         )
 
+    def visit_With(self, node):
+        """Rewrite a with statement.
+
+        Before:
+            with cm() as x:
+                ...
+
+        After:
+            with cm() as x:
+                x = _ptera_interact('x', None, x)
+                ...
+        """
+
+        def _only_names(target):
+            if isinstance(target, ast.Tuple):
+                return all(_only_names(elt) for elt in target.elts)
+            return isinstance(target, ast.Name)
+
+        new_body = []
+        new_items = []
+        for item in node.items:
+            target = item.optional_vars
+            if target is not None and _only_names(target):
+                new_body.extend(self.generate_interactions(target))
+            new_items.append(
+                ast.withitem(
+                    context_expr=self.visit(item.context_expr),
+                    optional_vars=target,
+                )
+            )
+        new_body.extend(self.visit_body(node.body))
+        return ast.copy_location(
+            ast.With(items=new_items, body=new_body),
+            node,
+        )
+
     def visit_ExceptHandler(self, node):
         if node.name is None:
             new_body = []
